@@ -303,6 +303,11 @@ func (h *RunHarness) onTrace(fanId string, event string, args ...int) {
 		args = []int{}
 	}
 	ev := Ev{"ev": event, "fan": fanId, "a": args}
+	if st != nil && event == "RpmEnd" && st.rf.Spec.HasRpm {
+		if _, ok := h.Env.paths[st.px+"rpm"]; ok {
+			ev["rpm"] = h.Env.Get(st.px + "rpm") // what the plant reports right now (the reading the monitor just took)
+		}
+	}
 	if st != nil && (event == "RestoreEnd" || event == "CycleEnd" || event == "Captured") {
 		ev["pwm"] = h.Env.Get(st.px + "pwm")
 		ev["mode"] = h.modeOf(st)
@@ -334,7 +339,8 @@ func (h *RunHarness) fanInfo() []Ev {
 		out = append(out, Ev{"id": id, "kind": sp.Kind, "hasMode": sp.HasMode, "hasRpm": sp.HasRpm,
 			"cfgMap": sp.CfgMap != nil, "cfgMinMax": sp.CfgMin != nil && sp.CfgMax != nil, "neverStop": sp.NeverStop,
 			"pwm": h.Env.Get(st.px + "pwm"), "mode": h.modeOf(st), "theta": st.rf.Theta,
-			"rest": st.rf.Rest[:], "hadData": h.hasData(st), "hadMap": h.hasMap(st)})
+			"rest": st.rf.Rest[:], "hadData": h.hasData(st), "hadMap": h.hasMap(st), "n": h.Cfg.Window,
+			"min": st.fan.GetMinPwm(), "max": st.fan.GetMaxPwm(), "stallOnly": st.rf.CurveErrAt < 0})
 	}
 	return out
 }
